@@ -31,12 +31,11 @@ theorem addLoop_val : ∀ (a x : List Nat) (c : Nat), a.length = x.length → Di
   | a :: as, x :: xs, c, h, ha, hx, hc => by
     rw [digs_cons] at ha hx
     have hB := B_eq
-    have hs : (a + x + c) / B % 2 = (a + x + c) / B := by
+    have hc' : (a + x + c) / B ≤ 1 := by
       have h1 := ha.1; have h2 := hx.1
       rw [B_eq] at *; omega
-    have hc' : (a + x + c) / B % 2 ≤ 1 := by omega
-    simp only [addLoop, and_bitmask, shr_bits, and_overflowmask, val_cons, List.length_cons, W_succ]
-    rw [addLoop_val as xs _ (by simpa using h) ha.2 hx.2 hc', hs]
+    simp only [addLoop, and_bitmask, shr_bits, and_overflowmask hc', val_cons, List.length_cons, W_succ]
+    rw [addLoop_val as xs _ (by simpa using h) ha.2 hx.2 hc']
     have e : a + B * val as + (x + B * val xs) + c = (a + x + c) + B * (val as + val xs) := by
       rw [Nat.mul_add]; omega
     rw [e, digit_step, Nat.add_comm ((a + x + c) / B)]
@@ -66,12 +65,11 @@ theorem incrLoop_val : ∀ (a : List Nat) (c : Nat), Digs a → c ≤ 1 →
   | a :: as, c, ha, hc => by
     rw [digs_cons] at ha
     have hB := B_eq
-    have hs : (a + c) / B % 2 = (a + c) / B := by
+    have hc' : (a + c) / B ≤ 1 := by
       have h1 := ha.1
       rw [B_eq] at *; omega
-    have hc' : (a + c) / B % 2 ≤ 1 := by omega
-    simp only [incrLoop, and_bitmask, shr_bits, and_overflowmask, val_cons, List.length_cons, W_succ]
-    rw [incrLoop_val as _ ha.2 hc', hs]
+    simp only [incrLoop, and_bitmask, shr_bits, and_overflowmask hc', val_cons, List.length_cons, W_succ]
+    rw [incrLoop_val as _ ha.2 hc']
     have e : a + B * val as + c = (a + c) + B * val as := by omega
     rw [e, digit_step, Nat.add_comm ((a + c) / B)]
 
